@@ -86,10 +86,11 @@ fn t1_deliveries<const K: usize>(announced: bool, keep: bool) {
         if keep {
             assert_eq!(ft.file_data.len(), ft.recvd_payload);
             let i: usize = kani::any();
-            kani::assume(i < ft.file_data.len());
-            // announced: the whole file; announcement lost: at least never damaged content (a prefix of the file)
-            assert!(i < fsize);
-            assert_eq!(ft.file_data[i], file[i]);
+            if i < ft.file_data.len() {
+                // announced: the whole file; announcement lost: at least never damaged content (a prefix of the file)
+                assert!(i < fsize);
+                assert_eq!(ft.file_data[i], file[i]);
+            }
         }
     }
     kani::cover!(ft.state == FileTransferState::Complete && nr == 3, "3-package transfer completed");
